@@ -291,10 +291,20 @@ pub fn plan_c10(thorough: bool) -> Plan {
     // commits that allocate from the reloaded list with a reopen in between; decoded page
     // accounting (no page used twice, nothing leaked) after every step
     for m1 in &menu {
-        for big_first in [true, false] {
+        // (third variant: the first commit after the reopen needs MORE pages than the reloaded
+        // list holds — 1600 against 1280 —, so the list runs dry inside one sync and the rest
+        // comes from the bump; only for the first three menu entries in the quick tier)
+        for (mi, big_first) in [(0usize, 1u8), (0, 0), (0, 2)].into_iter().map(|(_, b)| (menu.iter().position(|x| x == m1).unwrap_or(0), b)) {
+            if big_first == 2 && !thorough && mi >= 3 {
+                continue;
+            }
             let mut cfg2 = cfg.clone();
             cfg2.buckets = 256;
-            let first = if big_first { vec![w(1, 70000), w(2, 70000)] } else { vec![w(1, 1300), w(2, 5000)] };
+            let first = match big_first {
+                1 => vec![w(1, 70000), w(2, 70000)],
+                0 => vec![w(1, 1300), w(2, 5000)],
+                _ => vec![w(1, 6_600_000)],
+            };
             let mut cse = case(
                 "ovf",
                 vec!["seed:0", "CL0:0-5"],
@@ -311,7 +321,7 @@ pub fn plan_c10(thorough: bool) -> Plan {
     sort_by_bound(&mut cases);
     let mut p = Plan::new(
         cases,
-        "histx: structural histories (empty / leaf / 20- and 21-key merkle clusters / overflow values / delete-to-one / delete-to-zero, rollback on) with a close + reopen inserted at EVERY position under every entry of a configuration menu {same, 3 workers + warm-up, minimum caches + no pinned levels, prepopulate + 3 pinned levels, 3 I/O workers, 2 I/O workers on the adversarial device (completions of a burst delivered newest first), different hashtable_buckets and seed passed at reopen, same options but cold (nothing read back after the reopen)}, followed by a commit and a rollback, and all ordered pairs of menu entries in reopen-commit-reopen-commit-rollback; and a two-page free list (1280 pages released by deleting a 5 MiB value) carried across reopens under every menu entry, with commits allocating from it in between and the decoded page accounting checked after every step; oracle: after every open root, every value (direct and through a session), a verifying truthful proof for every universe key, sync_seqn equal the model's, hash-table occupancy and capacity equal those before the close, and all later operations audit as if never closed.",
+        "histx: structural histories (empty / leaf / 20- and 21-key merkle clusters / overflow values / delete-to-one / delete-to-zero, rollback on) with a close + reopen inserted at EVERY position under every entry of a configuration menu {same, 3 workers + warm-up, minimum caches + no pinned levels, prepopulate + 3 pinned levels, 3 I/O workers, 2 I/O workers on the adversarial device (completions of a burst delivered newest first), different hashtable_buckets and seed passed at reopen, same options but cold (nothing read back after the reopen)}, followed by a commit and a rollback, and all ordered pairs of menu entries in reopen-commit-reopen-commit-rollback; and a two-page free list (1280 pages released by deleting a 5 MiB value) carried across reopens under every menu entry, with commits allocating from it in between (a few pages; ≈ 36 pages; more pages than the list holds, so that it runs dry inside one sync) and the decoded page accounting checked after every step; oracle: after every open root, every value (direct and through a session), a verifying truthful proof for every universe key, sync_seqn equal the model's, hash-table occupancy and capacity equal those before the close, and all later operations audit as if never closed.",
     );
     p.budget_s = if thorough { 1700 } else { 55 };
     p
